@@ -406,3 +406,5 @@ PROPS["C02"]["mir"].append(ob("storage_read_glue_c02", "ob_blobread", "storage_r
 PROPS["C02"]["mir"].append(ob("delete_entry_glue", "ob_delete", "delete_entry_glue"))
 PROPS["C15"]["mir"].append(ob("records_count_rows", "ob_misc", "records_count_rows", kwargs={"B": 2}, thorough_kwargs={"B": 3}))
 PROPS["C15"]["mir"].append(ob("disk_used_sum", "ob_misc", "disk_used_sum", kwargs={"B": 2}))
+PROPS["C07"]["mir"].append(ob("quarantine_moves_blob", "ob_misc", "quarantine_moves_blob"))
+PROPS["C06"]["mir"].append(ob("quarantine_moves_blob_c06", "ob_misc", "quarantine_moves_blob"))
